@@ -18,12 +18,12 @@ type Step struct {
 func (s *Session) Enabled() []Step {
 	var en []Step
 	for _, n := range s.Nodes {
-		if !n.Started {
+		if !n.Started && !s.Silent[n.G] {
 			en = append(en, Step{Op: "start", Node: n.G})
 		}
 	}
 	for _, it := range s.Pending {
-		if it.To.Aborted {
+		if (it.To.Aborted && !s.KeepFeedingAborted) || it.To.Panic != "" || s.Silent[it.To.G] || s.Silent[it.From.G] {
 			continue
 		}
 		en = append(en, Step{Op: "deliver", Item: it.ID, Node: it.To.G})
@@ -43,6 +43,11 @@ func (s *Session) item(id int) *Item {
 // Apply executes a step.
 func (s *Session) Apply(st Step) error {
 	switch st.Op {
+	case "silence":
+		if s.Silent == nil {
+			s.Silent = map[int]bool{}
+		}
+		s.Silent[st.Node] = true
 	case "start":
 		s.Start(s.Nodes[st.Node-1])
 	case "deliver":
